@@ -54,10 +54,11 @@ UApply ==
   /\ Has("apply") /\ pend = NoMem /\ pa = 0
   /\ IF UE.z THEN ~known \/ cur = Empty                                  \* nothing to read: the file is empty
             ELSE ~known \/ (IsRec(cur) /\ Old.st = cur.st /\ Old.sz = cur.sz)  \* read = last write
-  /\ \E l \in (IF UE.who = "r" THEN RunnerUfsLocs
-                ELSE IF UE.who = "i" THEN RunnerUfsLocs \cup DaemonUfsLocs   \* remote mirror / in-process unit: the daemon drives the state itself
-                ELSE DaemonUfsLocs), ch \in {"ok", "fail"} :
-        LET n == ApplyUpd(Old, UpdAt(l, UE.nsz, ch)) IN n.st = New.st /\ n.sz = New.sz
+  \* who = "i": the daemon acts for a remote mirror (it copies state and size of the remote record verbatim) or for an
+  \* in-process unit; WorkUnit.tla has no update table for those, only continuity and the step properties apply
+  /\ \/ UE.who = "i"
+     \/ \E l \in (IF UE.who = "r" THEN RunnerUfsLocs ELSE DaemonUfsLocs), ch \in {"ok", "fail"} :
+          LET n == ApplyUpd(Old, UpdAt(l, UE.nsz, ch)) IN n.st = New.st /\ n.sz = New.sz
   /\ (CheckSteps /\ ~UE.z) => ApplyBad(Old, New) = {}                    \* StageMonotone, SucceededIsFinal, SizeMonotone
   /\ pend' = New /\ pa' = UE.a
   /\ ul' = ul + 1 /\ UNCHANGED <<cur, known, vars>>
